@@ -9,26 +9,26 @@ From PV Require Import Fort.Syntax Fort.Sem Fort.Facts Base.Harness C06.Syntax C
 Open Scope Z_scope.
 
 (* ================================================================== the sufficient condition *)
-Definition rng_safe (d : decls) (A : name) (p : nat) (lo st : expr) (b : name) (q : nat) (lo' st' : expr) : bool :=
+Definition rng_safe (fx : fixes) (d : decls) (A : name) (p : nat) (lo st : expr) (b : name) (q : nat) (lo' st' : expr) : bool :=
   expr_eqb st st' &&
-  (if same_range d A p lo st b q lo' st' then expr_eqb (start_norm d A p lo) (start_norm d b q lo') else true).
+  (if same_range fx d A p lo st b q lo' st' then expr_eqb (start_norm d A p lo) (start_norm d b q lo') else true).
 
-Fixpoint ranges_safe (d : decls) (A : name) (p : nat) (lo st : expr) (b : name) (q : nat) (ix : list index) : bool :=
+Fixpoint ranges_safe (fx : fixes) (d : decls) (A : name) (p : nat) (lo st : expr) (b : name) (q : nat) (ix : list index) : bool :=
   match ix with
   | [] => true
-  | IExp _ :: r => ranges_safe d A p lo st b (S q) r
-  | IRange lo' _ st' :: r => rng_safe d A p lo st b q lo' st' && ranges_safe d A p lo st b (S q) r
+  | IExp _ :: r => ranges_safe fx d A p lo st b (S q) r
+  | IRange lo' _ st' :: r => rng_safe fx d A p lo st b q lo' st' && ranges_safe fx d A p lo st b (S q) r
   end.
 
 Definition ix_fresh (idx A : name) (i : index) : bool := negb (imentions idx i) && negb (imentions A i).
 
 (* accessor b(ix) may be rewritten: no index/bound expression mentions the loop variable or the written
    array W; if b is the written array it is exactly the written section `wix` (never, when wix = None) *)
-Definition acc_safe (d : decls) (idx W : name) (wix : option (list index)) (F : name) (p : nat) (lo st : expr)
+Definition acc_safe (fx : fixes) (d : decls) (idx W : name) (wix : option (list index)) (F : name) (p : nat) (lo st : expr)
                     (b : name) (ix : list index) : bool :=
   negb (Nat.eqb idx b) && forallb (ix_fresh idx W) ix &&
   (if Nat.eqb W b then match wix with Some w => list_beq index_eqb ix w | None => false end else true) &&
-  ranges_safe d F p lo st b 0 ix.
+  ranges_safe fx d F p lo st b 0 ix.
 
 Fixpoint aexpr_safe (chk : name -> list index -> bool) (idx W : name) (e : aexpr) : bool :=
   match e with
@@ -39,11 +39,11 @@ Fixpoint aexpr_safe (chk : name -> list index -> bool) (idx W : name) (e : aexpr
   | ABin _ l r | AIntr2 _ l r => aexpr_safe chk idx W l && aexpr_safe chk idx W r
   end.
 
-Definition aa_safe (d : decls) (idx : name) (a : aassign) : bool :=
+Definition aa_safe (fx : fixes) (d : decls) (idx : name) (a : aassign) : bool :=
   aa_accept a &&
   match range_pos 0 (aa_ix a) with
   | Some (p, lo, hi, st) =>
-      let chk := acc_safe d idx (aa_arr a) (Some (aa_ix a)) (aa_arr a) p lo st in
+      let chk := acc_safe fx d idx (aa_arr a) (Some (aa_ix a)) (aa_arr a) p lo st in
       chk (aa_arr a) (aa_ix a) && aexpr_safe chk idx (aa_arr a) (aa_rhs a)
   | None => false
   end.
@@ -70,7 +70,7 @@ Qed.
 Section Iteration.
   (* the lhs range (of accessor F at position p) and one loop iteration k: s0 = store at loop entry,
      s1 = store at the start of the body *)
-  Variables (d : decls) (idx W F : name) (wix : option (list index)) (p : nat) (lo hi st : expr).
+  Variables (fx : fixes) (d : decls) (idx W F : name) (wix : option (list index)) (p : nat) (lo hi st : expr).
   Variables (s0 s1 : store) (k l t : Z).
   Hypothesis Hbnd : bnd_ok d s0.
   Hypothesis El : eval s0 lo = Some l.
@@ -87,24 +87,24 @@ Section Iteration.
   Qed.
 
   Lemma ridx_eval b q lo' hi' st' :
-    rng_safe d F p lo st b q lo' st' = true -> mentions idx lo' = false -> mentions W lo' = false ->
-    eval s1 (ridx_of d idx F p lo st b q lo' st') = ix_val s0 k (IRange lo' hi' st').
+    rng_safe fx d F p lo st b q lo' st' = true -> mentions idx lo' = false -> mentions W lo' = false ->
+    eval s1 (ridx_of fx d idx F p lo st b q lo' st') = ix_val s0 k (IRange lo' hi' st').
   Proof.
     intros S H1 H2. unfold rng_safe in S. apply andb_true_iff in S as [S1 S2].
     apply expr_eqb_eq in S1. subst st'. unfold ridx_of. cbn [ix_val]. rewrite Et.
-    destruct (same_range d F p lo st b q lo' st) eqn:SR.
+    destruct (same_range fx d F p lo st b q lo' st) eqn:SR.
     - apply expr_eqb_eq in S2. cbn [eval]. rewrite R2.
       assert (E : eval s0 lo' = Some l).
       { rewrite <- (start_norm_eval d s0 b q lo' Hbnd), <- S2, (start_norm_eval d s0 F p lo Hbnd). exact El. }
       rewrite E. reflexivity.
-    - cbn [eval]. rewrite R2. destruct Flo as [F1 F2].
+    - rewrite expr_eqb_refl, orb_true_r. cbn [eval]. rewrite R2. destruct Flo as [F1 F2].
       rewrite (eval_s1 lo' H1 H2), (eval_s1 lo F1 F2), El.
       destruct (eval s0 lo') as [l'|]; [|reflexivity]. cbn [eval_bin]. f_equal. lia.
   Qed.
 
   Lemma lower_ixs_eval b : forall ix q,
-    ranges_safe d F p lo st b q ix = true -> forallb (ix_fresh idx W) ix = true ->
-    map (eval s1) (lower_ixs (ridx_of d idx F p lo st) b q ix) = map (ix_val s0 k) ix.
+    ranges_safe fx d F p lo st b q ix = true -> forallb (ix_fresh idx W) ix = true ->
+    map (eval s1) (lower_ixs (ridx_of fx d idx F p lo st) b q ix) = map (ix_val s0 k) ix.
   Proof.
     induction ix as [|i ix IH]; intros q S Fr; [reflexivity|].
     cbn [forallb] in Fr. apply andb_true_iff in Fr as [Fi Fr]. unfold ix_fresh in Fi.
@@ -122,8 +122,8 @@ Section Iteration.
   Proof. destruct f; reflexivity. Qed.
 
   Lemma lower_eval e :
-    aexpr_safe (acc_safe d idx W wix F p lo st) idx W e = true ->
-    eval s1 (lower (ridx_of d idx F p lo st) e) = aeval s0 k e.
+    aexpr_safe (acc_safe fx d idx W wix F p lo st) idx W e = true ->
+    eval s1 (lower (ridx_of fx d idx F p lo st) e) = aeval s0 k e.
   Proof.
     induction e as [z|x|b ix|o e IH|o e1 IH1 e2 IH2|f e IH|f e1 IH1 e2 IH2]; intro S; cbn [aexpr_safe lower aeval] in *.
     - reflexivity.
@@ -178,9 +178,9 @@ Proof.
 Qed.
 
 (* ================================================================== the theorem *)
-Theorem aa_sound_partial_ d idx a s s' f :
-  aa_safe d idx a = true -> bnd_ok d s -> aa_sem a s = Some s' ->
-  exists prog, aa_apply d idx a = Some prog /\
+Theorem aa_sound_partial_ fx d idx a s s' f :
+  aa_safe fx d idx a = true -> bnd_ok d s -> aa_sem a s = Some s' ->
+  exists prog, aa_apply fx d idx a = Some prog /\
   exists s2 tr, exec (3 + f) prog s = Ok s2 tr CNormal /\ agree_except [idx] s2 s'.
 Proof.
   intros Safe Hbnd Sem. unfold aa_safe in Safe. apply andb_true_iff in Safe as [Acc Safe].
@@ -193,7 +193,7 @@ Proof.
   destruct (opt_all (map (aa_elem s a) (zseq 0 (trip_count l h t)))) as [lvs|] eqn:Elvs; [|discriminate].
   inversion Sem; subst s'. clear Sem. eexists. split; [reflexivity|].
   set (W := aa_arr a) in *. set (n := trip_count l h t) in *.
-  set (r := ridx_of d idx W p lo st).
+  set (r := ridx_of fx d idx W p lo st).
   (* facts from the lhs accessor *)
   pose proof Slhs as Slhs'. unfold acc_safe in Slhs'.
   apply andb_true_iff in Slhs' as [S3 Lrg]. apply andb_true_iff in S3 as [S3 _].
@@ -241,10 +241,10 @@ Proof.
       apply Z.mul_cancel_r in H; [lia | exact T0]. }
     (* evaluate the body *)
     assert (Eix : opt_all (map (eval s1) (lower_ixs r W 0 (aa_ix a))) = Some vsj).
-    { unfold r. rewrite (lower_ixs_eval d idx W W p lo st s s1 (Z.of_nat j) l t Hbnd El Et R1 R2 R3 Flo W (aa_ix a) 0%nat Lrg Lfr).
+    { unfold r. rewrite (lower_ixs_eval fx d idx W W p lo st s s1 (Z.of_nat j) l t Hbnd El Et R1 R2 R3 Flo W (aa_ix a) 0%nat Lrg Lfr).
       exact Evs. }
     assert (Erhs : eval s1 (lower r (aa_rhs a)) = Some v).
-    { unfold r. rewrite (lower_eval d idx W W (Some (aa_ix a)) p lo st s s1 (Z.of_nat j) l t Hbnd El Et R1 R2 R3 R4 Flo _ Srhs).
+    { unfold r. rewrite (lower_eval fx d idx W W (Some (aa_ix a)) p lo st s s1 (Z.of_nat j) l t Hbnd El Et R1 R2 R3 R4 Flo _ Srhs).
       exact Ev. }
     eexists. eexists. split.
     + fold s1. apply (exec_assign f W _ _ s1 vsj v Eix Erhs).
@@ -275,7 +275,7 @@ Definition ex_safe : aassign :=
                  (ASec 0%nat [IRange (ELit 1) (ELit 4) (ELit 1)])).
 
 Example aa_safe_nonvacuous :
-  aa_safe ex_decls 2%nat ex_safe = true /\ bnd_ok ex_decls ex_store /\
+  aa_safe unfixed ex_decls 2%nat ex_safe = true /\ bnd_ok ex_decls ex_store /\
   (exists s', aa_sem ex_safe ex_store = Some s' /\ val s' (0%nat, [2]) = 24).
 Proof.
   split; [vm_compute; reflexivity|]. split.
@@ -289,12 +289,12 @@ Definition ex_overlap : aassign :=
 
 Theorem aa_refuted_ :
   exists d idx a s s' prog s2 tr,
-    aa_accept a = true /\ bnd_ok d s /\ aa_sem a s = Some s' /\ aa_apply d idx a = Some prog /\
+    aa_accept a = true /\ bnd_ok d s /\ aa_sem a s = Some s' /\ aa_apply unfixed d idx a = Some prog /\
     exec 10 prog s = Ok s2 tr CNormal /\ val s2 (aa_arr a, [3]) <> val s' (aa_arr a, [3]).
 Proof.
   exists ex_decls, 2%nat, ex_overlap, ex_store.
   destruct (aa_sem ex_overlap ex_store) as [s'|] eqn:E1; [|vm_compute in E1; discriminate].
-  destruct (aa_apply ex_decls 2%nat ex_overlap) as [prog|] eqn:E2; [|vm_compute in E2; discriminate].
+  destruct (aa_apply unfixed ex_decls 2%nat ex_overlap) as [prog|] eqn:E2; [|vm_compute in E2; discriminate].
   destruct (exec 10 prog ex_store) as [s2 tr c| |] eqn:E3.
   - exists s', prog, s2, tr. split; [reflexivity|]. split; [intros [|[|b]]; reflexivity|].
     split; [first [exact E1 | reflexivity]|]. split; [first [exact E2 | reflexivity]|].
